@@ -326,6 +326,13 @@ func (c *Ctx) sites(f *ssa.Function, env Env, chk *GCheck, depth int) []gsite {
 					if okv := extractOf(x, 1); okv != nil {
 						out = append(out, gsite{cut: boolEdgesT(okv, boolWant), instr: x})
 					}
+				} else if x.Call.Signature().Results().Len() == 0 && chk.MatchCall != nil && chk.MatchCall(c, x, env) {
+					// a step that cannot fail (no result): having run it is the success — every way out of its block
+					var es []edge
+					for _, sc := range x.Block().Succs {
+						es = append(es, edge{from: x.Block(), to: sc})
+					}
+					out = append(out, gsite{cut: es, instr: x})
 				}
 			case *ssa.BinOp:
 				if chk.MatchCmp == nil {
@@ -377,6 +384,14 @@ func (c *Ctx) sites(f *ssa.Function, env Env, chk *GCheck, depth int) []gsite {
 						out = append(out, s)
 					}
 				}
+				// set[k] on a map[K]bool into which only `true` is ever stored: the value read is the membership flag
+				if chk.MatchOK != nil && !x.CommaOk && trueOnlySet(x.X) && chk.MatchOK(c, x, env) {
+					s := gsite{cut: boolEdgesT(x, !chk.BoolFalse), instr: x}
+					if !chk.BoolFalse {
+						s.okVal = x
+					}
+					out = append(out, s)
+				}
 			}
 		}
 	}
@@ -386,7 +401,7 @@ func (c *Ctx) sites(f *ssa.Function, env Env, chk *GCheck, depth int) []gsite {
 // pruned returns the If edges that are infeasible under env (conditions evaluating to a constant).
 func (c *Ctx) pruned(f *ssa.Function, env Env) map[edge]bool {
 	out := map[edge]bool{}
-	if len(env) == 0 {
+	if len(env) == 0 && c.assumeSuffix == "" {
 		return out
 	}
 	for _, b := range f.Blocks {
@@ -394,7 +409,19 @@ func (c *Ctx) pruned(f *ssa.Function, env Env) map[edge]bool {
 			continue
 		}
 		if iff, ok := b.Instrs[len(b.Instrs)-1].(*ssa.If); ok {
-			switch c.Path(iff.Cond, env) {
+			p := c.Path(iff.Cond, env)
+			if c.assumeSuffix != "" {
+				// a configuration flag assumed for this evaluation: the flag itself, or its negation
+				neg := false
+				q := p
+				for strings.HasPrefix(q, "!") {
+					q, neg = q[1:], !neg
+				}
+				if strings.HasSuffix(q, c.assumeSuffix) && !strings.ContainsAny(q, " (") {
+					p = fmt.Sprint(c.assumeValue != neg)
+				}
+			}
+			switch p {
 			case "true":
 				out[edge{from: b, to: b.Succs[1]}] = true
 			case "false":
@@ -432,12 +459,22 @@ func (c *Ctx) guard(f *ssa.Function, env Env, chk *GCheck, events func(in ssa.In
 			okVals[s.okVal] = true
 		}
 	}
+	// steps that cannot fail: what follows them in their own block lies behind them
+	passed := map[ssa.Instruction]bool{}
+	for _, s := range ss {
+		if cl, isC := s.instr.(*ssa.Call); isC && cl.Call.Signature().Results().Len() == 0 {
+			passed[cl] = true
+		}
+	}
 	seen := reach(f.Blocks[0], cut)
 	for _, b := range f.Blocks {
 		if _, ok := seen[b]; !ok {
 			continue
 		}
 		for _, in := range b.Instrs {
+			if passed[in] {
+				break
+			}
 			isEv := false
 			if events != nil {
 				isEv = events(in)
@@ -654,9 +691,36 @@ func (l *loop) insideBody(b *ssa.BasicBlock) bool {
 // iteration (back edge) and the loop exit cannot be reached from the body entry without crossing a
 // success edge of chk, i.e. every element is checked. Returns ok, witness, number of loops with sites.
 func (c *Ctx) GuardLoop(f *ssa.Function, env Env, chk *GCheck) (bool, []string, int) {
+	return c.guardLoop(f, env, chk, 0)
+}
+
+func (c *Ctx) guardLoop(f *ssa.Function, env Env, chk *GCheck, depth int) (bool, []string, int) {
 	c.Analysed(f)
 	ss := c.sites(f, env, chk, 0)
 	if len(ss) == 0 {
+		// the loop may have moved into an unexported helper of the package that is handed the list: the obligation
+		// holds there (in the caller's frame), and f succeeds only if that call does
+		if depth < 2 {
+			for _, cl := range findCalls(f, func(cl *ssa.Call) bool {
+				g := cl.Call.StaticCallee()
+				return g != nil && inModule(g) && g.Blocks != nil && g != f && pkgPathOf(g) == pkgPathOf(f) && (g.Object() == nil || !g.Object().Exported())
+			}) {
+				g := cl.Call.StaticCallee()
+				okG, wG, nG := c.guardLoop(g, c.calleeEnv(&cl.Call, g, env), chk, depth+1)
+				if nG == 0 {
+					continue
+				}
+				if !okG {
+					return false, wG, nG
+				}
+				call := cl
+				req, wR, _ := c.Guard(f, env, &GCheck{Name: "the helper holding the loop succeeds", NoDescend: true, MatchCall: func(c *Ctx, p *ssa.Call, env Env) bool { return p == call }}, nil)
+				if !req {
+					return false, wR, nG
+				}
+				return true, nil, nG
+			}
+		}
 		return false, []string{fmt.Sprintf("no check site of [%s] in %s", chk.Name, short(f.String()))}, 0
 	}
 	cut := c.pruned(f, env)
@@ -762,6 +826,9 @@ func pathAny() func(string) bool { return nil }
 func cmpReject(name string, rejectOp token.Token, lhs, rhs func(string) bool) *GCheck {
 	return &GCheck{Name: name, MatchCmp: func(c *Ctx, b *ssa.BinOp, env Env) (bool, bool) {
 		l, r := c.Path(b.X, env), c.Path(b.Y, env)
+		if l2, r2, ok := countAsParts(l, r); ok {
+			l, r = l2, r2
+		}
 		type cand struct {
 			l, r string
 			op   token.Token
@@ -786,6 +853,28 @@ func cmpReject(name string, rejectOp token.Token, lhs, rhs func(string) bool) *G
 				cands = append(cands, cand{cd.l, "0", token.GTR})
 			case cd.r == "0" && cd.op == token.EQL:
 				cands = append(cands, cand{cd.l, "0", token.LEQ})
+			}
+		}
+		// a string is empty exactly when its length is zero: len(s) == 0 is s == "" (both ways)
+		strOperand := func(v ssa.Value) bool {
+			if cl, ok := v.(*ssa.Call); ok {
+				if bi, isB := cl.Call.Value.(*ssa.Builtin); isB && bi.Name() == "len" && len(cl.Call.Args) == 1 {
+					return isStringType(cl.Call.Args[0].Type())
+				}
+			}
+			return false
+		}
+		for _, cd := range append([]cand{}, cands...) {
+			switch {
+			case strings.HasPrefix(cd.l, "len(") && strings.HasSuffix(cd.l, ")") && cd.r == "0" && (cd.op == token.EQL || cd.op == token.NEQ) && (strOperand(b.X) || strOperand(b.Y)):
+				cands = append(cands, cand{cd.l[4 : len(cd.l)-1], `""`, cd.op})
+			case cd.r == `""` && (cd.op == token.EQL || cd.op == token.NEQ):
+				cands = append(cands, cand{"len(" + cd.l + ")", "0", cd.op})
+				if cd.op == token.NEQ {
+					cands = append(cands, cand{"len(" + cd.l + ")", "0", token.GTR})
+				} else {
+					cands = append(cands, cand{"len(" + cd.l + ")", "0", token.LEQ})
+				}
 			}
 		}
 		for _, cd := range cands {
@@ -1417,4 +1506,51 @@ func (c *Ctx) guardViaTable(f *ssa.Function, env Env, chk *GCheck) bool {
 		}
 	}
 	return false
+}
+
+// trueOnlySet: m is a map with boolean elements, and every store into it that is visible in its function stores the
+// constant true (a set in the map[K]bool idiom: m[k] reads "k is a member").
+func trueOnlySet(m ssa.Value) bool {
+	mt, ok := m.Type().Underlying().(*types.Map)
+	if !ok || !isBoolType(mt.Elem()) {
+		return false
+	}
+	base := stripConv(m)
+	if base.Referrers() == nil {
+		return false
+	}
+	n := 0
+	var scan func(v ssa.Value, d int) bool
+	scan = func(v ssa.Value, d int) bool {
+		if d > 2 || v.Referrers() == nil {
+			return true
+		}
+		for _, r := range *v.Referrers() {
+			switch y := r.(type) {
+			case *ssa.MapUpdate:
+				if y.Map == v {
+					n++
+					if k, isK := y.Value.(*ssa.Const); !isK || c19constBool(k) != "true" {
+						return false
+					}
+				}
+			case *ssa.ChangeType:
+				if !scan(y, d+1) {
+					return false
+				}
+			}
+		}
+		return true
+	}
+	return scan(base, 0) && n > 0
+}
+
+func c19constBool(k *ssa.Const) string {
+	if k.Value == nil || k.Value.Kind() != constant.Bool {
+		return ""
+	}
+	if constant.BoolVal(k.Value) {
+		return "true"
+	}
+	return "false"
 }
